@@ -97,6 +97,8 @@ pub fn run(tier: &str, seed: u64, widen: bool) -> Report {
         if &got != model {
             let label = if got.starts_with("not-built") {
                 if out.compiler_panicked() { "compiler-crashed-on-well-typed-program" } else { "well-typed-program-rejected" }
+            } else if got.starts_with("compile-timeout") {
+                "compile-timeout"
             } else if got.starts_with("signal") || got.starts_with("timeout") {
                 "executable-crashed-or-hung"
             } else if got.split('|').next() != model.split('|').next() {
